@@ -19,8 +19,13 @@ def register(w):
                             'in_': 'Dict[Node,_NodeState]', 'out': 'Dict[Node,_NodeState]',
                             'gen_map': 'Dict[Node,_NodeState]', '_definition_factory': 'Callable'}))
   # Defs(X, k, d): definition d of symbol k is in state X
-  w.macros['Defs'] = (['X', 'k', 'd'], '(k in X.value and d in X.value[k])')
-  w.macros['HasKey'] = (['X', 'k'], '(k in X.value)')
+  # _NodeState is a value type: its dict is written only inside its own methods, on the object being built
+  # (syntactic frame obligation frame-scan/rd-nodestate-value, checked on every run), so what a state
+  # contains is a function of the state object alone -- two ghost predicates, independent of the heap.
+  w.pure['rd_defs'] = 'bool'
+  w.pure['rd_haskey'] = 'bool'
+  w.macros['Defs'] = (['X', 'k', 'd'], 'rd_defs(X, k, d)')
+  w.macros['HasKey'] = (['X', 'k'], 'rd_haskey(X, k)')
 
   ASSUMED = ['assumed contract of the _NodeState value type, evaluated at run time by bounded/rt_nodestate.py '
              '(exhaustive over small states)']
@@ -31,6 +36,7 @@ def register(w):
       ensures=[
           'fresh(self.value)',
           'implies(init_from is None, forall(lambda k: not HasKey(self, k)))',
+          'implies(init_from is None, forall(lambda k, d: not Defs(self, k, d)))',
           'implies(isinstance(init_from, _NodeState), forall(lambda k, d: Defs(self, k, d) == Defs(init_from, k, d)))',
           'implies(isinstance(init_from, _NodeState), forall(lambda k: HasKey(self, k) == HasKey(init_from, k)))',
           # from a plain dict symbol -> definition: one singleton set per key
@@ -64,11 +70,14 @@ def register(w):
   INPRE = 'exists(lambda p: p in node.prev and old(Defs(self.out[p], k, d)), "Node")'
   INPREK = 'exists(lambda p: p in node.prev and old(HasKey(self.out[p], k)), "Node")'
   w.add(Contract(
-      R + 'Analyzer.visit_node', serves=[],   # DISABLED: the VCs are generated but z3 does not decide them yet (see DESIGN.md)
+      R + 'Analyzer.visit_node', serves=['C06'],
       types={'node': 'Node', 'return': 'bool'}, pure=PURE,
       asserts='raise', raises={'AssertionError': 'not %s' % HAS},
       requires=['node in self.out', 'self.in_ is not self.out', 'self.in_ is not self.gen_map',
                 'self.out is not self.gen_map',
+                # the scope annotation's parameter table is not one of the analyzer's own tables
+                'implies(%s, %s.params is not self.in_ and %s.params is not self.out and %s.params is not self.gen_map)'
+                % (HAS, SCOPE, SCOPE, SCOPE),
                 'forall(lambda p: implies(p in node.prev, p in self.out), "Node")',
                 'forall(lambda p: implies(p in self.out, self.out[p] is not None), "Node")',
                 'forall(lambda p: implies(p in self.gen_map, self.gen_map[p] is not None), "Node")'],
@@ -102,8 +111,59 @@ def register(w):
           'implies(%s, forall(lambda k, d: Defs(self.out[node], k, d) == (Defs(self.gen_map[node], k, d) or '
           '(Defs(self.in_[node], k, d) and k not in %s.modified and k not in %s.deleted))))' % (HAS, SCOPE, SCOPE),
           'implies(not %s, self.out[node] is self.in_[node])' % HAS,
+          # nothing else in the three tables is touched
+          'forall(lambda m: implies(m is not node, (m in self.in_) == old(m in self.in_) and (m in self.out) == old(m in self.out) '
+          'and (m in self.gen_map) == old(m in self.gen_map)), "Node")',
+          'forall(lambda m: implies(m is not node and old(m in self.in_), self.in_[m] is old(self.in_[m])), "Node")',
+          'forall(lambda m: implies(m is not node and old(m in self.out), self.out[m] is old(self.out[m])), "Node")',
+          'forall(lambda m: implies(m is not node and old(m in self.gen_map), self.gen_map[m] is old(self.gen_map[m])), "Node")',
+          'self.in_[node] is not None and self.out[node] is not None',
+          'implies(%s, self.gen_map[node] is not None)' % HAS,
           # revisit request <=> the out state changed
           'result == (not (forall(lambda k: HasKey(self.out[node], k) == old(HasKey(self.out[node], k))) and '
           'forall(lambda k, d: Defs(self.out[node], k, d) == old(Defs(self.out[node], k, d)))))',
       ],
       assumes=['definition_factory returns a fresh Definition object', 'weakref.ref is pure']))
+
+  # ---- refinement lemma: the concrete transfer function satisfies the abstract visit_node contract of
+  # cfg.GraphVisitor with  stable := {m | RDEq(self, m)}  and direction = forward
+  def at(m, t):
+    return t.replace('node', m)
+  SCOPE_M = 'anno.getanno(m.ast_node, anno.Static.SCOPE)'
+  HAS_M = 'anno.hasanno(m.ast_node, anno.Static.SCOPE)'
+  w.macros['RDDom'] = (['self', 'm'], '(m in self.in_ and m in self.out and self.out[m] is not None and self.in_[m] is not None and '
+                       'forall(lambda p: implies(p in m.prev, p in self.out and self.out[p] is not None), "Node"))')
+  w.macros['RDIn'] = (['self', 'm'],
+                      '(forall(lambda k, d: Defs(self.in_[m], k, d) == exists(lambda p: p in m.prev and Defs(self.out[p], k, d), "Node")) '
+                      'and forall(lambda k: HasKey(self.in_[m], k) == exists(lambda p: p in m.prev and HasKey(self.out[p], k), "Node")))')
+  w.macros['RDOut'] = (['self', 'm'],
+                       '(implies(%s, m in self.gen_map and self.gen_map[m] is not None and forall(lambda k, d: Defs(self.out[m], k, d) == '
+                       '(Defs(self.gen_map[m], k, d) or (Defs(self.in_[m], k, d) and k not in %s.modified and k not in %s.deleted)))) '
+                       'and implies(not %s, self.out[m] is self.in_[m]))' % (HAS_M, SCOPE_M, SCOPE_M, HAS_M))
+  w.macros['RDEq'] = (['self', 'm'], 'RDDom(self, m) and RDIn(self, m) and RDOut(self, m)')
+  INV_G = 'forall(lambda a, b: (b in a.next) == (a in b.prev), "Node", "Node")'
+  UNLESS = 'not (truthy(result) and m in node.next)'
+  w.add(Contract(
+      'lemma.C06.rd_visit_node_refines_abstract', serves=['C06'],
+      in_module='malt.pyct.static_analysis.reaching_definitions',
+      types={'self': 'RDAnalyzer', 'node': 'Node'}, pure=PURE,
+      requires=[INV_G] + [r for r in w.contracts[R + 'Analyzer.visit_node'].requires] + [HAS + ' or True'],
+      raises={'AssertionError': True},
+      modifies=['contents(self.in_)', 'contents(self.out)', 'contents(self.gen_map)'],
+      ensures=[
+          'forall(lambda a, b: (b in a.next) == old(b in a.next) and (b in a.prev) == old(b in a.prev), "Node", "Node")',
+          'forall(lambda x, e: implies(not fresh(x), (e in x.modified) == old(e in x.modified) and '
+          '(e in x.deleted) == old(e in x.deleted)), "Scope", "Any")',
+          # the visited node satisfies its equation (unless it is its own successor and its out state changed)
+          'implies(not (truthy(result) and node in node.next), RDDom(self, node))',
+          'implies(not (truthy(result) and node in node.next), RDIn(self, node))',
+          'implies(not (truthy(result) and node in node.next), RDOut(self, node))',
+          # every other node keeps its equation unless it reads the out state that changed
+          'forall(lambda m: implies(m is not node and old(RDEq(self, m)) and %s, RDDom(self, m)), "Node")' % UNLESS,
+          'forall(lambda m: implies(m is not node and old(RDEq(self, m)) and %s, RDIn(self, m)), "Node")' % UNLESS,
+          'forall(lambda m: implies(m is not node and old(RDEq(self, m)) and %s, RDOut(self, m)), "Node")' % UNLESS,
+      ],
+      source='''
+def lemma(self, node):
+  return self.visit_node(node)
+'''))
